@@ -1,4 +1,4 @@
-prop("C03", pkg="c03",
+prop("C03", pkg="c03", fuzz=[("FuzzProtoRoundTrip", 60)],
      rule="rapid draws a message type from the shared generator pgen (reflect-composed structs of 0..30 fields: all scalar kinds, string, []byte, [N]byte, "
           "nested / pointer-to structs and scalars, **T, []T, map[K]V, untagged or fully tagged with numbers 1..2^29-1 weighted on 15/16, 2047/2048, 65535/65536 and "
           "varint/zigzag32/64/fixed32/64/bytes/rep tags, single-pointer 'inlined' chains to depth 3, top-level scalars; plus a static corpus: RawMessage, a Message "
@@ -6,12 +6,15 @@ prop("C03", pkg="c03",
           "per type (boundary-heavy integers and floats incl. -0/NaN payloads/Inf, nil vs empty, repeated fields of 0..40 elements and 8 % beyond 40 (cheap element types up to 2500, thorough 5000) plus a sub-check whose values all carry a repeated field of 1001..2500 (thorough 5000) elements), "
           "each marshalled by value or (25 %) by pointer. One evaluation = one (type, value, by-pointer) case through Marshal, Size, Unmarshal, Marshal again. "
           "Non-trivial = the built value is not the zero value of its type; distinct = FNV-64 of (type descriptor JSON, value recipe JSON, by-pointer). "
+          "Thorough tier only: a native Go fuzzing campaign FuzzProtoRoundTrip (60 s, 16 workers, not seed-reproducible - the saved input is the reproducible unit) over "
+          "(bytes <= 4 KiB, selector of 23 static target types from pgen.FuzzTargets, by-pointer flag): whatever value the bytes decode to without error goes through the same "
+          "oracle; its executions are added to evaluations. "
           "All nine defect classes this check found (KF-C03-001..009) are repaired in /repo (59a4758, 4183846, 63d287d, ede0efc, f520591, 4eb59c8, 4b53871, 8ad6b3b, d34f12d): "
           "no generator avoidance or comparer tolerance is active, the whole domain is generated and excluded_known is empty; a class listed as 'known' again would be avoided / tolerated and counted there.",
      quick=dict(shards=16, scale=1, timeout=900),
      thorough=dict(shards=16, scale=12, timeout=3000),
      technique="property-based testing (pgregory.net/rapid): generated Go types (reflect.StructOf + static corpus) x generated values, round-trip / size / determinism oracle, "
-               "journal-supervised shards",
+               "journal-supervised shards; native go fuzzing (go test -fuzz) with the same oracle on decoded values in the thorough tier",
      level_text="Exploration: every generated (type, value) satisfied Unmarshal(Marshal(v)) == v up to nil-versus-empty slices/maps (floats by bit pattern), "
                 "Size(v) == len(Marshal(v)), nil Marshal error for types without user methods, and byte-identical repeated Marshal for values without maps "
                 "(equal length and equal decoded value with maps); a counterexample is shrunk (rapid + structural minimiser) and saved as a replay file. "
